@@ -59,6 +59,58 @@ theorem resetDefault_length (env : Env) (F : Nat) (fs : List Field) (vs : List V
     | nil => simp at h
     | cons v0 vs => rw [resetDefault_cons]; simp at h ⊢; exact ih vs h
 
+/-! ### `ResetDefault` does not depend on the model's fuel once it exceeds the struct nesting of the target -/
+
+mutual
+/-- nesting depth of struct values directly inside struct values (what `ResetDefault` descends) -/
+def valDepth : Val → Nat
+  | .struct vs => 1 + listDepth vs
+  | _ => 0
+def listDepth : List Val → Nat
+  | [] => 0
+  | v :: vs => max (valDepth v) (listDepth vs)
+end
+
+theorem resetMember_fuel (env : Env) (F G : Nat) (f : Field) (v : Val)
+    (ih : ∀ ifs inner, v = .struct inner → resetDefault env F ifs inner = resetDefault env G ifs inner) :
+    resetMember env F f v = resetMember env G f v := by
+  unfold resetMember
+  cases f.dflt with
+  | some d => rfl
+  | none =>
+    simp only
+    split
+    · split
+      · next name inner _ =>
+        cases hfind : env.find name with
+        | none => rfl
+        | some ifs => simp only; rw [ih ifs inner rfl]
+      · rfl
+    · rfl
+
+theorem resetDefault_fuel (env : Env) (F : Nat) :
+    ∀ (F' : Nat) (fs : List Field) (vs : List Val), listDepth vs < F → listDepth vs < F' →
+      resetDefault env F fs vs = resetDefault env F' fs vs := by
+  induction F with
+  | zero => intro F' fs vs h; omega
+  | succ F ihF =>
+    intro F' fs vs h h'
+    obtain ⟨G, rfl⟩ : ∃ G, F' = G + 1 := ⟨F' - 1, by omega⟩
+    induction fs generalizing vs with
+    | nil => rw [resetDefault_nil_left, resetDefault_nil_left]
+    | cons f fs ih =>
+      cases vs with
+      | nil => rw [resetDefault_nil_right, resetDefault_nil_right]
+      | cons v vs =>
+        simp only [listDepth] at h h'
+        rw [resetDefault_cons, resetDefault_cons, ih vs (by omega) (by omega)]
+        congr 1
+        apply resetMember_fuel
+        intro ifs inner hv
+        subst hv
+        simp only [valDepth] at h h'
+        exact ihF G ifs inner (by omega) (by omega)
+
 /-! ### the reader state at each member -/
 
 /-- the reader when member `i`'s turn comes in the member sequence of `ReadFrom`: the state after
